@@ -277,6 +277,8 @@ def _copy_layer_to_x_sparse(
                 dst_grp.create_dataset(
                     el,
                     shape=src_dataset.shape,
+                    maxshape=(src_dataset.maxshape
+                              if chunks is not None else None),
                     chunks=chunks,
                     dtype=dtype)
                 if chunks is None:
